@@ -30,6 +30,12 @@ def plan_kinds(trace):
 def check(ctx):
     thorough = ctx.tier == "thorough"
     vlib.build_harness(ctx)
+    # L1 design: Range.Update fold + inclusive scan + residual rule, ALL conjunct lists (spec/RangeDerivation)
+    big = "MC_fixed4.cfg" if thorough else "MC_fixed.cfg"
+    vlib.model_check(ctx, "RangeDerivation", "RangeDerivation", big, workers=1, name="range-design", timeout=3000)
+    rc = vlib.tlc(ctx, "RangeDerivation", "RangeDerivation", "MC_coded.cfg", workers=1, name="range-design-coded")
+    if rc["rc"] == 0 or "SameAnswer" not in rc["out"] and "Assumption" not in rc["out"]:
+        raise Inconclusive("RangeDerivation with the pinned tree's residual rule no longer fails: the design model lost its sensitivity")
     tr = os.path.join(ctx.work, "c06.ndjson")
     vlib.vdrive(ctx, ["sql", "c06", tr, 1500 if thorough else 120, 1], timeout=3000)
     res = vlib.validate(ctx, FAM, "SqlModelTrace", "Trace.cfg", tr, name="val-c06", timeout=3400)
@@ -39,6 +45,9 @@ def check(ctx):
     for k in ("Create", "Insert", "Select", "Update", "Delete", "Stats"):
         if c[k] == 0:
             raise Inconclusive("vacuous: no %s events" % k)
+    nrs = sum(1 for e in vlib.read_ndjson(tr) if "rs" in e)
+    if nrs == 0:
+        raise Inconclusive("vacuous: no statement recorded its index scan interval")
     if not any("RangeScanWithIndex" in p for p in plans) or not any("SeqScan" in p for p in plans):
         raise Inconclusive("vacuous: plans exercised %s" % dict(plans))
     ev = [e for e in vlib.read_ndjson(tr, limit=60) if e["ev"] in ("Select", "Update")][:3]
@@ -46,7 +55,7 @@ def check(ctx):
     vlib.write_evidence(ctx, "model_checking", dict(
         states=ctx.states, transitions=ctx.transitions, traces_validated_against_impl=ctx.traces,
         samples=ctx.samples, exhaustive=False,
-        statements=dict(c), plans=dict(plans.most_common(12)), events_validated=ctx.events,
+        statements=dict(c), plans=dict(plans.most_common(12)), events_validated=ctx.events, index_scan_intervals_checked=nrs,
         rule="every statement's answer is compared by TLC with SqlModel.Answer; scenarios are seeded"),
         ["values are the ranks of an order-preserving table of SQL-expressible literals (non-negative ints, decimals, strings incl. '' and a 300-byte string); NULLs and negative numbers are not yet exercised",
-         "TLC only evaluates the SqlModel operators on recorded statements (trace validation); no separate state-space exploration of SqlModel"])
+         "SqlModel itself is evaluated by TLC only on recorded statements; the range-derivation design (spec/RangeDerivation) is checked for all conjunct lists up to length 3 (4 in thorough) over a 4-value domain and bound to the code by the plan-level clause C06.range (scanned interval recorded from the real plan)"])
